@@ -619,6 +619,43 @@ def discovery_forwarding(r, repo: Repo) -> None:
 
 
 
+def rule_report_identity(ck: Check, repo: Repo, rid: str) -> None:
+    """The per-file reports are collected in a SET.  Two reports that compare equal are one element: if equality is
+    defined on anything coarser than the file's unique path (base name, checksum only), the reports of different covered
+    files collapse and all but one file vanish from the result - silently, exit status unchanged."""
+    r = ck.rule(rid, "reports of different covered files never compare equal (FileReport equality, if defined, includes the full path)")
+    cls = repo.cls("reuse.report.FileReport")
+    methods = {m.name: m for m in cls.body if isinstance(m, ast.FunctionDef)}
+    eq = methods.get("__eq__")
+    r.instance("FileReport", {"defines___eq__": eq is not None, "defines___hash__": "__hash__" in methods})
+    if eq is None:
+        return   # identity comparison: distinct objects are distinct elements
+
+    def attrs_used(fn: ast.FunctionDef, depth: int = 0) -> set[str]:
+        out = set()
+        for n in ast.walk(fn):
+            if isinstance(n, ast.Attribute) and isinstance(n.value, ast.Name) and n.value.id in ("self", "other"):
+                # the chain rooted here, outermost attribute
+                out.add(n.attr)
+            if isinstance(n, ast.Attribute) and isinstance(n.value, ast.Attribute) and isinstance(n.value.value, ast.Name) \
+                    and n.value.value.id in ("self", "other"):
+                out.add(f"{n.value.attr}.{n.attr}")
+            if depth < 2 and isinstance(n, ast.Call) and isinstance(n.func, ast.Attribute) and isinstance(n.func.value, ast.Name) \
+                    and n.func.value.id in ("self", "other") and n.func.attr in methods:
+                out |= attrs_used(methods[n.func.attr], depth + 1)
+        return out
+
+    used = attrs_used(eq)
+    narrowed = {u for u in used if u.split(".")[0] in ("path", "name") and "." in u}    # path.name, path.stem, name.split …
+    whole = {u for u in used if u in ("path", "name")} - {u.split(".")[0] for u in narrowed}
+    r.instance("__eq__", {"attributes": sorted(used), "full_path_compared": bool(whole)})
+    if not whole:
+        r.violation("reuse.report.FileReport.__eq__", f"equality of file reports does not include the file's full path (compares {sorted(used)})",
+                    "`a/__init__.py` and `b/__init__.py` with identical content have the same base name and checksum: their reports compare"
+                    " equal, the set of file reports keeps one of them and `reuse spdx` emits one File section for three covered files",
+                    repo.loc(eq))
+
+
 def rule_forwarding(ck: Check, repo: Repo) -> None:
     r = ck.rule("R4", "configuration flags are forwarded unchanged along the file-enumeration chain")
     P = "reuse.project.Project"
@@ -831,6 +868,7 @@ def run(ck: Check, repo: Repo) -> None:
     rule_decision(ck, repo, langs)
     rule_path_bases(ck, repo, "R6")
     rule_vcs_output_verbatim(ck, repo, "R7")
+    rule_report_identity(ck, repo, "R9")
     rule_meson_parent(ck, repo, "R8")
     rule_walk(ck, repo)
     rule_forwarding(ck, repo)
